@@ -561,7 +561,11 @@ class Gen:
     def g_nonuniform(self):
         """A value with a distinct setting on every character (any offset error becomes visible)."""
         text = self.text(2)
-        e = self.do({'op': 'new', 'cls': 'S', 'text': text, 'sets': [], 'S': []})
+        if self.rng.random() < 0.4:
+            text = self.rng.choice([' ', '  ', '-', '\t ']) + text + self.rng.choice(['', '', ' ', '-'])
+        enclosing = self.rng.random() < 0.5
+        e = self.do({'op': 'new', 'cls': 'S', 'text': text, 'sets': [{'k': 'aset', 'v': '21'}] if enclosing else [],
+                     'S': ['21'] if enclosing else []})
         r = e['res'][0]
         codes = ['31', '32', '33', '34', '35', '36', '41', '42', '43', '44', '1', '3', '4', '9', '38;5;%d']
         for i in range(len(text)):
